@@ -383,6 +383,11 @@ class Ctx:
                 continue
             if same(x, e):
                 c = fold(y)
+                if c is None and rel in ('<', '<=') and depth < 4 and self.stable(e, pts, gd):
+                    # x < y with y itself bounded (a loop counter below a bounded count)
+                    yb = self.bounds(y, depth + 2)
+                    if yb and yb[1] is not None:
+                        c = yb[1]
                 if c is not None and self.stable(e, pts, gd):
                     if rel == '<':
                         hi = c - 1 if hi is None else min(hi, c - 1)
@@ -955,6 +960,11 @@ AUDITED = [
 ]
 
 
+def _base_fn(key):
+    """a function and its closures are one unit for the audited table (a closure body may be inlined or split off)"""
+    return re.sub(r'::\{closure#\d+\}', '', key)
+
+
 def _short_kind(site):
     if site.callee:
         nm = re.sub(r'<.*$', '', site.callee.split('::')[-1])
@@ -1009,13 +1019,14 @@ def check_panics(out, facts, repo_root, label=None, delegated=True, floor=None, 
                 by_rule[r[0]] = by_rule.get(r[0], 0) + 1
                 out.ob('R03.3', key, True, '', site.loc, sample={'site': site.sig()[:160], 'rule': r[0], 'reason': r[1]})
                 continue
-            rows = [a for a in AUDITED if a['fn'] == sk and a['kind'] == kind]
+            base = _base_fn(sk)
+            rows = [a for a in AUDITED if _base_fn(a['fn']) == base and a['kind'] == kind]
             ok = False
             why = 'no discharge rule applies and the site is not in the audited table'
             if rows:
                 row = rows[0]
-                u = used.get((sk, kind), 0) + 1
-                used[(sk, kind)] = u
+                u = used.get((base, kind), 0) + 1
+                used[(base, kind)] = u
                 if u > row['max']:
                     why = 'more %s sites than the %d audited in this function' % (kind, row['max'])
                 elif row.get('requires') and not _audit_requires(row['requires'], site):
